@@ -92,6 +92,42 @@ Definition p_add_to_pack (w : world) (id : Z) (objs : list pobj) (nh twice do_fs
   (if do_fsync then [EFlush (HPack id); EFsync (HPack id)] else []) ++
   [EClose (HPack id); ECommit].
 
+(* The same call with do_commit=False (as import_objects uses it): everything up to and including the close of the pack handle; the rows
+   stay in the open transaction.  `known` and `pos` are what the call sees: the keys its session reports (committed rows and the rows
+   still pending in its own transaction) and the current length of the pack. *)
+Definition sql_of_rows (rs : list row) : list event := match rs with [] => [] | _ => [ESql (SInsert true rs)] end.
+
+Definition p_batch (id : Z) (nh twice do_fsync : bool) (known : list key) (pos : nat) (objs : list pobj) : list event :=
+  EOpenPack id :: fst (atp_loop id nh twice known pos objs) ++
+  (if nh then [ETruncate id (atp_end nh known pos objs)] else []) ++
+  sql_of_rows (snd (atp_loop id nh twice known pos objs)) ++
+  (if do_fsync then [EFlush (HPack id); EFsync (HPack id)] else []) ++
+  [EClose (HPack id)].
+
+(* the keys the session knows after a batch (only consulted when nh) *)
+Fixpoint atp_known (nh : bool) (known : list key) (objs : list pobj) : list key :=
+  match objs with
+  | [] => known
+  | o :: t => if nh && existsb (N.eqb (okey o)) known then atp_known nh known t
+              else atp_known nh (if nh then okey o :: known else known) t
+  end.
+
+(* import_objects after the keys to transfer are fixed (same hash: the requested keys the destination lacks, nh = false; different
+   hash: all requested keys, nh = twice = true): a sequence of batches - the flushes of the bounded content cache and the single
+   objects larger than the budget -, each written to the pack the container selects at that moment, and ONE final COMMIT.
+   `cur` carries the current length of the packs touched so far. *)
+Fixpoint p_batches (w : world) (nh twice do_fsync : bool) (known : list key) (cur : list (Z * nat)) (bs : list (Z * list pobj)) : list event :=
+  match bs with
+  | [] => []
+  | (id, objs) :: t =>
+      let pos := match aget Z.eqb cur id with Some n => n | None => pack_len w id end in
+      p_batch id nh twice do_fsync known pos objs ++
+      p_batches w nh twice do_fsync (atp_known nh known objs) (aset Z.eqb cur id (atp_end nh known pos objs)) t
+  end.
+
+Definition p_import (w : world) (nh twice do_fsync : bool) (bs : list (Z * list pobj)) : list event :=
+  p_batches w nh twice do_fsync (map rkey (db w)) [] bs ++ [ECommit].
+
 (* repack_pack(id): nothing indexed in the pack -> remove the file; otherwise copy the stored bytes of its live rows, in offset
    order, into the temporary pack -1 (objs: key, new stored blob - recompressed or not, an oracle -, flag, size), flush+fsync+close,
    re-point the rows to -1 with their new offsets (bulk update by primary key), COMMIT, remove the old pack, hard-link -1 back to
